@@ -9,7 +9,7 @@ python3 - "$P" "$R" <<'PY'
 import json,sys,os
 p,r=sys.argv[1:3]; d=f'/verif/seeded/{p}-{r}'
 head=open(d+'/notes.md').read().split('\n')[0].lstrip('# ').strip()
-json.dump({"property":p,"id":f"{p}-{r}","origin":"sub-agent, round "+{'a':'1','b':'2','c':'3','d':'4','e':'5'}[r],"what":head,
+json.dump({"property":p,"id":f"{p}-{r}","origin":"sub-agent, round "+{'a':'1','b':'2','c':'3','d':'4','e':'5','f':'6'}[r],"what":head,
            "files":sorted(f for f in os.listdir(d) if f!='meta.json')},open(d+'/meta.json','w'),indent=1)
 PY
 git -C /repo worktree remove --force $WT; git -C /repo worktree prune
